@@ -114,7 +114,11 @@ func implC02(h caseHead) map[string]any {
 	}
 	vals := map[string]bool{}
 	count := 0
+	dup := false
 	for _, r := range rv.Results {
+		if r.Shape == "unique" {
+			dup = true
+		}
 		for _, t := range traces(r) {
 			tv, _ := t["traceValue"].(map[string]any)
 			switch r.Shape {
@@ -139,6 +143,7 @@ func implC02(h caseHead) map[string]any {
 	}
 	res["values"] = sortedKeys(vals)
 	res["count"] = count
+	res["dup"] = dup
 	return res
 }
 
@@ -330,7 +335,8 @@ func implFuzz(h caseHead, raw []byte) map[string]any {
 
 // hist: a history of documents through one compiled profile vs a fresh validation of each document
 type histHead struct {
-	Docs []string `json:"docs"`
+	Docs      []string `json:"docs"`
+	Interfere []string `json:"interfere"`
 }
 
 func implHist(h caseHead, raw []byte) map[string]any {
@@ -358,8 +364,12 @@ func implHist(h caseHead, raw []byte) map[string]any {
 	var positions []map[string]any
 	allSame := true
 	firstSeen := map[string]string{}
-	for _, d := range hh.Docs {
+	for k, d := range hh.Docs {
 		doc := d
+		if len(hh.Interfere) > 0 {
+			other := hh.Interfere[k%len(hh.Interfere)]
+			one(func() (string, error) { return pkg.Validate(other, doc, false, nil) })
+		}
 		k1, r1 := one(func() (string, error) {
 			return pkg.ValidateCompiledWithConfiguration(compiled, doc, false, nil, fixedClock{}, defaultRC())
 		})
